@@ -6,8 +6,6 @@ import (
 	"os"
 	"os/exec"
 	"path/filepath"
-	"regexp"
-	"sort"
 	"strings"
 	"time"
 
@@ -39,6 +37,9 @@ func RunLegs(run *vh.Run, cmdName string, specs []LegSpec) {
 	var jobs []job
 	for _, s := range specs {
 		for i := 0; i < s.Procs; i++ {
+			if !run.WantCase(fmt.Sprintf("%s/%s/%d", s.Leg, s.Bin, i)) { // replay: only the named child
+				continue
+			}
 			jobs = append(jobs, job{s, i})
 		}
 	}
@@ -91,13 +92,16 @@ func RunLegs(run *vh.Run, cmdName string, specs []LegSpec) {
 			out.Close()
 			ob, _ := os.ReadFile(outPath)
 			res.out = string(ob)
-			if err != nil {
-				res.crash = err.Error()
-			}
 			if b, e := os.ReadFile(rep); e == nil {
 				var r Report
 				if json.Unmarshal(b, &r) == nil {
 					res.rep = &r
+				}
+			}
+			if err != nil {
+				// exit code 66 is the race detector's "reports were printed" status of a run that otherwise completed
+				if ee, ok := err.(*exec.ExitError); !(ok && ee.ExitCode() == 66 && res.rep != nil) {
+					res.crash = err.Error()
 				}
 			}
 			if files, _ := filepath.Glob(racePrefix + "*"); len(files) > 0 {
@@ -158,16 +162,22 @@ func RunLegs(run *vh.Run, cmdName string, specs []LegSpec) {
 			}
 		}
 		if res.races != "" {
-			ever, dep := classifyRaces(res.races)
-			run.Count("race_reports_dependency_only", dep)
-			keys := make([]string, 0, len(ever))
-			for k := range ever {
-				keys = append(keys, k)
-			}
-			sort.Strings(keys)
-			for _, k := range keys {
-				run.Count("race_reports_with_evermint_frames", 1)
-				run.Violation("data-race:"+k, label, map[string]any{"leg": leg, "report": tailStr(ever[k], 6000)})
+			seen := map[string]bool{}
+			for _, rr := range vh.ParseRaceLog(res.races) {
+				run.Count("race_reports_total", 1)
+				switch rr.Class {
+				case "evermint":
+					if !seen[rr.Key] {
+						seen[rr.Key] = true
+						run.Count("race_reports_with_evermint_access_site", 1)
+						run.Violation("data-race:"+rr.Key, label, map[string]any{"leg": leg, "report": tailStr(rr.Text, 7000)})
+					}
+				case "harness":
+					run.Inconclusive("race report inside the harness itself (" + rr.Key + ") in " + label)
+				default:
+					run.Count("race_reports_dependency_only", 1)
+					run.Distinct("race_dependency_sites", rr.Key)
+				}
 			}
 		}
 	}
@@ -198,49 +208,6 @@ func crashClass(out string) string {
 		return "fatal-error"
 	}
 	return "abnormal-exit"
-}
-
-var frameRe = regexp.MustCompile(`github\.com/EscanBE/evermint/v12/([A-Za-z0-9_/.\-]+)\.([A-Za-z0-9_().*\-]+)`)
-
-// classifyRaces splits race-detector output into reports that involve a frame of the
-// repository (keyed by the de-duplicated outermost evermint functions) and dependency-only ones.
-func classifyRaces(out string) (map[string]string, int) {
-	ever := map[string]string{}
-	dep := 0
-	blocks := strings.Split(out, "WARNING: DATA RACE")
-	for _, b := range blocks[1:] {
-		ms := frameRe.FindAllStringSubmatch(b, -1)
-		if len(ms) == 0 {
-			dep++
-			continue
-		}
-		seen := map[string]bool{}
-		var fr []string
-		for _, m := range ms {
-			if strings.Contains(m[0], "verifhook") {
-				continue
-			}
-			f := m[1] + "." + strings.TrimSuffix(m[2], "()")
-			f = strings.Split(f, ".func")[0]
-			if !seen[f] {
-				seen[f] = true
-				fr = append(fr, f)
-			}
-		}
-		if len(fr) == 0 {
-			dep++
-			continue
-		}
-		sort.Strings(fr)
-		if len(fr) > 3 {
-			fr = fr[:3]
-		}
-		k := strings.Join(fr, "+")
-		if _, ok := ever[k]; !ok {
-			ever[k] = b
-		}
-	}
-	return ever, dep
 }
 
 func tailStr(s string, n int) string {
